@@ -76,6 +76,7 @@ def make_case(rng, b, sg_name, fam, orient, supercell=None):
         frac = K / (N * sc)
         T = 1
         traj = Trajectory(species=[Species('Li')] * len(P), coords=frac[None, :, :], lattice=Lattice(M * sc[:, None]), time_step=1e-15)
+        gen.perturb(traj, rng)
         before = np.array(traj.positions, copy=True)
         sa.analyze_trajectory(traj, supercell=tuple(int(x) for x in sc), radius=radius)
         # analysing must not alter the trajectory: the second analysis of the same object is the one that is judged
